@@ -149,6 +149,15 @@ def _map_query_error(error: duckdb.Error, sql_query: str) -> Exception:
     if "square root of a negative number" in msg_lower:
         return RunTimeError("2-1-15-2", op="sqrt", value="negative")
 
+    # Data-dependent DuckDB failures without a dedicated VTL code (unparsable cast operand,
+    # numeric overflow, malformed pattern, ...): generic runtime error
+    if isinstance(
+        error,
+        (duckdb.ConversionException, duckdb.OutOfRangeException, duckdb.InvalidInputException),
+    ):
+        first_line = msg.splitlines()[0] if msg else type(error).__name__
+        return RunTimeError("2-1-1-1", op="query execution", error=first_line)
+
     # Return original error if no mapping found
     return error
 
